@@ -142,7 +142,7 @@ type spec struct {
 var ops = []string{"Select", "SelectDone", "SelectRowid", "IndexedSelect", "IndexedSelectEq", "PKSelect", "PKSelect-wr", "Columns", "Select-wr", "IndexedSelect-wr"}
 var exits = []string{"normal", "normal", "stop", "error-column", "error-table", "error-index", "fault", "panic"}
 var sideKinds = []string{"commit-attempt", "commit-attempt", "other-file-open-read-close", "peer-read", "peer-hold", "peer-release",
-	"same-process-open", "same-process-read", "same-process-close", "same-process-open-close", "probe", "same-handle-nested-call", "same-process-close-then-read", "gc", "gc"}
+	"same-process-open", "same-process-read", "same-process-close", "same-process-open-close", "probe", "same-handle-nested-call", "same-process-close-then-read", "gc", "gc", "open-while-writer-pending", "open-while-writer-pending"}
 
 func TestC06Held(t *testing.T) {
 	vt.Exec(t, vt.Check[spec]{
@@ -215,6 +215,7 @@ func run(r *vt.Run, t vt.TB, s spec) {
 	hl := sqlittle.VerifWrap(d)
 
 	var second *sqlittle.DB // another handle on the same file in this process
+	var kept []*sqlittle.DB // more of them, closed after the call
 	peerHolding := false
 	lockLost := "" // set when a same-process action has (by POSIX rules) dropped our lock
 	inOp := false
@@ -384,6 +385,53 @@ func run(r *vt.Run, t vt.TB, s spec) {
 			if inOp {
 				lockLost = "Close of one handle, then a read on another"
 			}
+		case "open-while-writer-pending":
+			// a SQLite writer in another process has reached COMMIT and waits
+			// in PENDING for our read to finish (the normal state of a writer
+			// that commits while a reader is active); meanwhile this process
+			// opens the same file once more - that may work or be refused,
+			// but whatever it leaves behind must not cost the read its lock
+			if !inOp || peerHolding || s.Writer != "" {
+				return
+			}
+			if err := env.O.Exec("w", "BEGIN IMMEDIATE"); err != nil {
+				if !oracle.IsBusy(err) {
+					harness("begin immediate: %v", err)
+				}
+				return
+			}
+			if err := env.O.Exec("w", "INSERT INTO t (b, c) VALUES (98, 'by the waiting writer')"); err != nil {
+				harness("insert: %v", err)
+			}
+			err := env.O.Exec("w", "COMMIT")
+			if err == nil {
+				violation("writer-committed-during-read", "%s inside %s(%s exit): a SQLite writer committed while the read was in progress", where, s.Op, s.Exit)
+				return
+			}
+			if !oracle.IsBusy(err) {
+				harness("commit: %v", err)
+			}
+			// the writer keeps PENDING now
+			h, oerr := sqlittle.Open(path)
+			if oerr == nil {
+				kept = append(kept, h)
+				classes["side:open-while-writer-pending:opened"] = true
+			} else {
+				classes["side:open-while-writer-pending:refused"] = true
+			}
+			h = nil
+			runtime.GC()
+			time.Sleep(3 * time.Millisecond)
+			runtime.GC()
+			time.Sleep(time.Millisecond)
+			// the writer tries again
+			if err := env.O.Exec("w", "COMMIT"); err == nil {
+				violation("writer-committed-during-read", "%s inside %s(%s exit): this process opened the same file again (%v) while a SQLite writer was waiting in PENDING; after a garbage collection the writer's COMMIT goes through although the read is still in progress", where, s.Op, s.Exit, oerr)
+				return
+			} else if !oracle.IsBusy(err) {
+				harness("commit: %v", err)
+			}
+			env.O.Exec("w", "ROLLBACK")
 		case "same-process-open-close":
 			if h, err := sqlittle.Open(path); err == nil {
 				h.Close()
@@ -614,6 +662,9 @@ func run(r *vt.Run, t vt.TB, s spec) {
 	commitAttempt(false, fmt.Sprintf("after %s(%s exit)", s.Op, s.Exit))
 	if second != nil {
 		second.Close()
+	}
+	for _, h := range kept {
+		h.Close()
 	}
 	d.Close()
 
